@@ -1,6 +1,7 @@
 (* Props/C01.v — property theorems only; proofs in Proofs/FrameBase.v, Proofs/C01Stream.v. *)
 From Coq Require Import List NArith.
 From Cedar Require Import Lib.Bytes Lib.Sym gen.Consts Model.Frame Model.FrameSpec Proofs.FrameBase Proofs.C01Stream Proofs.C01Sre.
+From Cedar Require Import Model.Msg Model.TypedStream Proofs.C14Writer Proofs.C01Typed Proofs.C01TypedStream.
 Import ListNotations.
 Local Open Scope N_scope.
 
@@ -47,6 +48,40 @@ Theorem C01_roundtrip_bidirectional :
     end.
 Proof. exact session_roundtrip. Qed.
 Print Assumptions C01_roundtrip_bidirectional.
+
+(* ---- the typed-message layer ------------------------------------------------------------ *)
+(* The typed layer accepts values of ANY length: for every sequence of PutChar / PutInt /
+   PutString / PutStringBytes / PutBytes / FlushFrame calls (the model writer has no failure
+   outcome) every frame it hands to the stream carries at most MaxMessageSize bytes ... *)
+Theorem C01_typed_frames_within_limit :
+  forall enc (ops : list wop),
+    Forall (fun f : mframe => lenN (fst f) <= MaxMessageSize) (w_out (write_ops enc ops)).
+Proof. exact typed_frames_within_limit. Qed.
+Print Assumptions C01_typed_frames_within_limit.
+
+(* ... the frames carry exactly the encodings, only the last one with EOM ... *)
+Theorem C01_typed_frames_carry_everything :
+  forall enc (ops : list wop),
+    concat (map fst (w_out (write_ops enc ops))) = concat (map (wop_bytes enc) ops) /\
+    exists fs last, w_out (write_ops enc ops) = fs ++ [(last, true)] /\
+                    Forall (fun f : mframe => snd f = false) fs.
+Proof. exact typed_frames_carry_everything. Qed.
+Print Assumptions C01_typed_frames_carry_everything.
+
+(* ... so the stream never refuses one for its size (the only possible refusal is the nonce
+   counter guard), and the peer's Message reader is handed exactly those frames, plaintext and
+   AES-GCM alike; C14_roundtrip then gives the values back. *)
+Theorem C01_typed_over_stream :
+  forall enc (ops : list wop) (A B : stream),
+    duplex A B ->
+    match send_mframes A (w_out (write_ops enc ops)) with
+    | (A1, SOk wire) =>
+        exists B1, recv_mframes B (length (w_out (write_ops enc ops))) wire = (B1, Some (w_out (write_ops enc ops))) /\
+                   duplex A1 B1
+    | (_, SErr e) => e = ECounterMax
+    end.
+Proof. intros enc ops A B D. apply typed_over_stream; [exact D|apply typed_frames_within_limit]. Qed.
+Print Assumptions C01_typed_over_stream.
 
 (* non-vacuity: two fresh plaintext streams, and two freshly keyed streams, are paired *)
 Example C01_new_streams_paired : duplex new_stream new_stream /\ rclean new_stream.
